@@ -275,8 +275,8 @@ func c10Body(c *run.Ctx) {
 		Mem:        sim.MemOpts{NewPlayer: 3, JoinSitter: 1, Rebuy: 2, Leave: 1, KeepSitting: 40, MaxNewID: 12, TopupAnyone: true},
 		// arrivals and departures of bystanders while the hand runs (participants stay): who is on
 		// turn, and who may act, must not move with the player list
-		InHandOps:    8,
-		InHandMem:    sim.MemOpts{NewPlayer: 3, NewRandom: 1, JoinSitter: 2, Leave: 4, KeepSitting: 50, MaxNewID: 12},
+		InHandOps:    14,
+		InHandMem:    sim.MemOpts{NewPlayer: 3, NewRandom: 1, JoinSitter: 1, Leave: 7, KeepSitting: 60, MaxNewID: 12},
 		RearmOnLeave: true,
 	}
 	// per accepted action: exactly one backend call and one event (counted around the submit)
